@@ -448,6 +448,119 @@ def unit_pspace_element(k, m):
                 config={'factors': k, 'sequence_length': m})
 
 
+def unit_byaxis_in(dtype, wkind, indices):
+    """DiscretizedSpace.byaxis_in[indices]: the sub-space is DiscretizedSpace(partition.byaxis[indices], tspace', axis_labels=<indexed labels>) where, for a constant
+    weighting, tspace' is built by the class of the original tensor space with the indexed shape, the DTYPE and the EXPONENT of the original and the cell volume of the
+    indexed partition as weighting; other weightings are delegated to tspace.byaxis[indices].  Constructor arguments are the claim."""
+    def run(ctx):
+        I = ctx.I
+
+        def path(st):
+            install(st)
+            fr = ip.Frame(st)
+            shape = (3, 4, 5)
+            labels = ('$x$', '$y$', '$z$')
+            cfg = dict(dtype_a=dtype, w_a=wkind, ndim_a=3)
+            ts = B_tspace(I, st, fr, 'a', cfg)
+            ts.fields['_TensorSpace__shape'] = shape
+            made = {}
+
+            class Part(object):
+                def __init__(self, tag, shp):
+                    self.tag, self.shp = tag, shp
+                    self.vol = S(z3.Real('cellvol.' + tag))
+
+                def __repr__(self):
+                    return '<partition %s>' % self.tag
+
+                def pv_getattr(self, I_, fr_, name):
+                    if name == 'byaxis':
+                        me = self
+
+                        class BA(object):
+                            def pv_getitem(self, I2, fr2, idx):
+                                sub = Part('sub', _index_tuple(me.shp, idx))
+                                made['part'] = (sub, idx)
+                                return sub
+                        return BA()
+                    if name == 'cell_volume':
+                        return self.vol
+                    if name == 'shape':
+                        return self.shp
+                    if name == 'ndim':
+                        return len(self.shp)
+                    raise Unsupported('partition .%s' % name)
+
+            class TsBA(object):
+                def pv_getitem(self, I2, fr2, idx):
+                    made['tspace_byaxis'] = idx
+                    return ('tspace.byaxis', idx)
+            sp = ip.Obj(I.get_class(DISCR + 'DiscretizedSpace'))
+            sp.fields.update({'_DiscretizedSpace__tspace': ts, '_DiscretizedSpace__partition': Part('p', shape), '_TensorSpace__shape': shape,
+                              '_TensorSpace__dtype': ts.fields['_TensorSpace__dtype'], '_LinearSpace__field': om.field_obj(I, 'real'),
+                              '_DiscretizedSpace__axis_labels': labels})
+            sp.partial = True
+            ts.fields['byaxis'] = TsBA()
+
+            def ts_ctor(I_, fr_, self, *a, **kw):
+                self.fields['ctor'] = ('tspace', tuple(a), dict(kw))
+                return None
+
+            def ds_ctor(I_, fr_, self, *a, **kw):
+                self.fields['ctor'] = ('discr', tuple(a), dict(kw))
+                return None
+            st.cuts[NT + 'NumpyTensorSpace.__init__'] = ts_ctor
+            st.cuts[DISCR + 'DiscretizedSpace.__init__'] = ds_ctor
+            try:
+                bi = I._getattr(sp, 'byaxis_in', fr)
+                res = I.getitem(bi, indices, fr)
+            except ip.PyRaise as e:
+                return ('raise', e.exc)
+            return ('ok', dict(sp=sp, ts=ts, res=res, made=made, shape=shape, labels=labels))
+        info = {'dtype': dtype, 'weighting': wkind, 'indices': repr(indices)}
+        for st, (status, r) in ctx.explore(path):
+            if status == 'raise':
+                ctx.fail(st, 'byaxis_in evaluates without raising', 'raises %s' % lib.exc_desc(r), info)
+                continue
+            res, made = r['res'], r['made']
+            ok = isinstance(res, ip.Obj) and res.fields.get('ctor', (None,))[0] == 'discr'
+            ctx.prove(st, 'returns a DiscretizedSpace', ok, dict(info, got=repr(res)))
+            if not ok:
+                continue
+            _, a, kw = res.fields['ctor']
+            full = dict(zip(['partition', 'tspace'], a))
+            full.update(kw)
+            ctx.prove(st, 'built on partition.byaxis[indices]', 'part' in made and full.get('partition') is made['part'][0] and made['part'][1] == indices, dict(info, got=repr(full.get('partition'))))
+            if not isinstance(indices, int):       # for an integer index the library hands the single label STRING on (it is then split into characters: observation in DESIGN 5.3, labels are not part of the listed property)
+                ctx.prove(st, 'axis labels indexed like the axes', tuple(full.get('axis_labels') or ()) == _index_tuple(r['labels'], indices), dict(info, got=repr(full.get('axis_labels'))))
+            t = full.get('tspace')
+            if wkind == 'const':
+                okt = isinstance(t, ip.Obj) and t.cls is r['ts'].cls and t.fields.get('ctor', (None,))[0] == 'tspace'
+                ctx.prove(st, 'constant weighting: tensor space built by the class of the original tensor space', okt, dict(info, got=repr(t)))
+                if okt:
+                    _, ta, tkw = t.fields['ctor']
+                    tfull = dict(zip(['shape', 'dtype'], ta))
+                    tfull.update(tkw)
+                    shp = tfull.get('shape')
+                    shp = (shp,) if isinstance(shp, int) else tuple(shp or ())        # an integer shape means a single axis of that length
+                    want = _index_tuple(r['shape'], indices)
+                    ctx.prove(st, 'tensor space: indexed shape', shp == ((want,) if isinstance(want, int) else want), dict(info, got=repr(tfull.get('shape'))))
+                    dt = tfull.get('dtype')
+                    ctx.prove(st, 'tensor space: dtype of the original space', dt is not None and npm.as_dtype(dt).name == dtype, dict(info, got=repr(dt)))
+                    ctx.prove(st, 'tensor space: exponent of the original space', 'exponent' in tfull and as_sbool(I.py_eq(tfull['exponent'], I._getattr(r['sp'], 'exponent', ip.Frame(st)), ip.Frame(st))), dict(info, got=repr(tfull.get('exponent'))))
+                    ctx.prove(st, 'tensor space: weighted by the cell volume of the indexed partition', tfull.get('weighting') is made['part'][0].vol, dict(info, got=repr(tfull.get('weighting'))))
+            else:
+                ctx.prove(st, 'other weightings: delegated to tspace.byaxis[indices]', t == ('tspace.byaxis', indices), dict(info, got=repr(t)))
+    return Unit('derived/byaxis_in/%s/%s/%s' % (dtype, wkind, repr(indices).replace(' ', '')), run, funcs=[DISCR + 'DiscretizedSpace.byaxis_in'], config={'dtype': dtype, 'weighting': wkind, 'indices': repr(indices)})
+
+
+def _index_tuple(t, idx):
+    if isinstance(idx, (list, tuple)):
+        return tuple(t[int(i)] for i in idx)
+    r = t[idx]
+    return r if isinstance(r, tuple) else r
+
+
 def unit_astype(dtype_from, dtype_to, wkind):
     """TensorSpace._astype / astype: the new space has the same shape, the requested dtype and (for floating dtypes) the very weighting
     of the original - constant, array and exponent.  The constructor call type(self)(shape, dtype=, weighting=) is a cut (its arguments are the claim)."""
@@ -572,6 +685,10 @@ def units(tier, seed):
             us.append(unit_astype(f, t, wk))
     for k, m in ((2, 2), (2, 1), (2, 3), (3, 3), (3, 2), (3, 4), (1, 1), (1, 2), (2, 0)):
         us.append(unit_pspace_element(k, m))
+    for dt in ('float64', 'float32', 'complex128'):
+        for idx in (0, 2, slice(0, 2), [1, 0], [2]):
+            us.append(unit_byaxis_in(dt, 'const', idx))
+    us.append(unit_byaxis_in('float32', 'array', [1, 0]))
     fl = ('float16', 'float32', 'float64', 'complex64', 'complex128')
     for d0 in fl:
         for d1 in fl:
